@@ -996,12 +996,20 @@ IB_richcompare(IB* self, PyObject* other, int op)
     oresult = PyObject_RichCompare(pt1, pt2, op);
 #endif
 
-    // tuple comparison is decided by the first non-equal element.
+    // tuple comparison is decided by the first non-equal element; when
+    // all elements are equal (which identical objects always are, even
+    // unorderable ones like None) the tuples are equal.
     result = PyObject_RichCompareBool(self->__name__, othername, Py_EQ);
     if (result == 0) {
         result = PyObject_RichCompareBool(self->__name__, othername, op);
     } else if (result == 1) {
-        result = PyObject_RichCompareBool(self->__module__, othermod, op);
+        result = PyObject_RichCompareBool(self->__module__, othermod, Py_EQ);
+        if (result == 0) {
+            result =
+              PyObject_RichCompareBool(self->__module__, othermod, op);
+        } else if (result == 1) {
+            result = (op == Py_EQ || op == Py_LE || op == Py_GE);
+        }
     }
     // If either comparison failed, we have an error set.
     // Leave oresult NULL so we raise it.
